@@ -8,7 +8,7 @@ CLAIM = dict(
     text='Krylov.tla: ExactStart (an initial residual that passes the test => the only continuation is AcceptInitial: Ok(0), x untouched) is checked by TLC for all four kinds; with the switch BiCGInitialCheck = FALSE (solve_bicg before fix D5) TLC exhibits the counterexample. '
          'The CG recurrences of solve_cg are transcribed over exact rationals and checked by TLC on every 2x2 symmetric strictly dominant integer system in scope: termination within n = 2 iterations, recurrence residual = true residual in every state, final iterate = Cramer solution; the exact iterates are emitted as cases and replayed on the real solvers. '
          'Against the real code TLC validates every recorded call on generated systems with provable conditioning (SPD = D + S with Gershgorin-bounded kappa <= 12 and <= 1000; strictly row-dominant nonsymmetric with ratio <= 0.4 and diagonals of either sign; nonsymmetric dominant matrices with equal row and column sums or symmetric pattern (circulants, D + constant-weight cyclic shifts, D + weighted permutations, skew part + dominant diagonal, one SPD circulant sub-family for CG); strongly non-normal upwind stencils (family upw: tridiag(-a,d,-c) and pentadiagonal with a/c in {3,4,5,8}, d = a+c+margin, margin 1/0.5/0.1, n = 30..60 inside the window n*log10(a/c)/2 <= 13.6, and 5-point upwind convection-diffusion stencils on grids up to order 60; right-hand sides ones/sin(k h)/e_1/random, zero and random guesses, tol 1e-6..1e-10; BiCG, BiCGSTAB, QMR; iteration guard 10n+100); initial guesses at distance 1e3, 1e6, 1e9 (QMR: 1e7) from the solution with tol >= 1e-12 x distance (QMR 1e-10 x), all solver variants incl. BiCG itol 2; sequences on one Sparse object (insert overwriting / new entry / scale / transpose() between solves, judged against the current dense matrix); orders 1..60, every pattern/triplet order, right-hand sides 1e-8..1e8 and zero, guesses zero/random, tol 1e-12..1e-3): '
-         'Ok, k <= 4n+40 (all kinds), for CG additionally k <= ceil(1.5*(sqrt(kappa)/2)*ln(2*sqrt(kappa)*max(1,|r0|/|b|)/tol))+5, agreement with Matrix::solve_basic on the dense copy within 4*kappa*tol + 64*n*kappa*eps; exact initial guess (integer systems, true residual exactly 0) => Ok(0) and x bit-identical; zero rhs + zero guess => Ok(0) and x = 0.',
+         'Ok, k <= 4n+40 (all kinds), for CG additionally k <= ceil(1.5*(sqrt(kappa)/2)*ln(2*sqrt(kappa)*max(1,|r0|/|b|)/tol))+5, agreement with Matrix::solve_basic on the dense copy within 4*kappa*tol + 64*n*kappa*eps; budget ladder after every successful convergence call (generous budget -> Ok(k); then budget k and k+1 must answer Ok(k) with bit-identical x and budget k-1 must answer Err - TLC checks the same law, BudgetLadder, on the protocol model); exact initial guess (integer systems, true residual exactly 0) => Ok(0) and x bit-identical; zero rhs + zero guess => Ok(0) and x = 0.',
     note='Decided exactly by TLC: ExactStart and the exact-rational CG laws (2x2 only: 3x3 overflows TLC integers). Resting on harness measurements: the Gershgorin / row-dominance condition bound, the CG iteration bound computed from it (logged as an integer, compared by the spec), agreement units against the dense solution. '
          '4n+40 is a calibrated constant (see notes), the CG bound is a-priori. Iterates are compared with the exact ones as conformance notes only. '
          'Random guesses are drawn on the scale of the solution (zero rhs: |r0| <= 1) because the stopping test is relative to |b|; the convergence clause is exercised on real-valued entries only - on integer data BiCG/QMR can hit an exact Lanczos breakdown (e.g. A = 256*[[1,0],[-1,-3]], b = 256*(12,0): solve_bicg returns Err(NaN)), an algorithmic limit of look-ahead-free BiCG rather than a coding defect. Known findings (known_findings.json): solve_bicg and solve_qmr fail (Err, or 5..98 n iterations) on upwind tridiagonal stencils once (a/c)^(n/2) >~ 1e14 with a smooth right-hand side and zero guess (events flagged harsh: n*log10(a/c)/2 >= 14.2; a few such cases are generated so that the finding stays visible; BiCGSTAB is checked strictly there); solve_bicgstab hits an exact breakdown on tridiag(-8,9.1,-1), n = 30, b = 1e-7*sin; solve_qmr occasionally stalls just above a tolerance <= 5e-12 (2 of 684 000 calibration systems).',
@@ -53,5 +53,5 @@ def check(ctx):
     ctx.notes.append('far-guess cases (bin/krylov_calibrate.py thorough 1 24 far: 24 seeds x 9 000 cases): no failure, worst k/(4n+40) = 0.457 (bicgstab), agree_units <= 1; with a reduction of 1e-12 |r0| asked of solve_qmr it stalled in 4 of 54 000 runs (the recorded attainable-accuracy finding), hence the 1e-10 limit for QMR.')
     return ctx.finish(
         rule='cases: (i) every TLC-enumerated 2x2 system x 5 solver variants, (ii) seeded systems: families spd (kappa <= 12), spd3 (kappa <= 1000), dd, and integer twins spdi/ddi for exact starts x solver variants (CG on SPD only) x orders 1..60 x tolerances 1e-12..1e-3 x right-hand sides zero/random/A*x of scale 1e-8..1e8 x guesses zero/random/exact; '
-             'events: conv (general), exact (exact guess), zero (zero rhs and guess), iter (conformance note). Every event is non-trivial; distinct = distinct event contents.',
+             'events: conv (general), ladder (budgets k, k+1, k-1 after Ok(k)), exact (exact guess), zero (zero rhs and guess), iter (conformance note). Every event is non-trivial; distinct = distinct event contents.',
         trusted=['harness: Gershgorin/row-dominance condition bounds, CG iteration bound, agreement units (harness/src/suites/krylov.rs)', 'Matrix::solve_basic as the dense reference (C01)', 'TLC', 'Krylov.tla'])
